@@ -19,7 +19,7 @@ type vFakeSub struct {
 	content []metav1.Object // ghost cache content returned by Cache().List()
 	lists   int             // number of List() calls
 	listErr error
-	closes  int
+	cacheOverride CacheReader
 }
 
 func newFakeSub(bufsz int) *vFakeSub {
@@ -37,7 +37,12 @@ func newFakeSub(bufsz int) *vFakeSub {
 	return s
 }
 
-func (s *vFakeSub) Cache() CacheReader      { return vFakeCache{s} }
+func (s *vFakeSub) Cache() CacheReader {
+	if s.cacheOverride != nil {
+		return s.cacheOverride
+	}
+	return vFakeCache{s}
+}
 func (s *vFakeSub) Ready() <-chan struct{}  { return s.readych }
 func (s *vFakeSub) Events() <-chan Event    { return s.evch }
 func (s *vFakeSub) Done() <-chan struct{}   { return s.donech }
